@@ -107,6 +107,15 @@ Theorem C17_by_name_keys_agree : Forall2 (fun (a : japi) (ks : list (list (bytes
 Proof. exact by_name_keys_agree. Qed.
 Print Assumptions C17_by_name_keys_agree.
 
+(* the compiled family, optional parameters: Gen.MacroApiGen.family_options lists per API, trait function and parameter the
+   path segments of the declared type AS SPELLED in the trait and the decision of helpers::is_option on that spelling, computed
+   by the translator with the rule it reads from proc-macros/src/helpers.rs on every run.  The decision is the p_opt the model's
+   decoders run on, and every parameter whose type is one of the standard spellings of std's Option (`Option`, `option::Option`,
+   `std::option::Option`, `core::option::Option`, with or without a leading `::`) is decided optional *)
+Theorem C17_option_spellings_are_optional : Forall2 (fun (a : japi) (rs : list (list (list bytes * bool))) => Forall2 (fun (ps : list (param jty)) (r : list (list bytes * bool)) => Forall2 (fun (p : param jty) (x : list bytes * bool) => snd x = p_opt p /\ (is_std_option (fst x) = true -> p_opt p = true)) ps r) (item_params a) rs) family family_options.
+Proof. exact option_spellings_are_optional. Qed.
+Print Assumptions C17_option_spellings_are_optional.
+
 (* ---------- non-vacuity: the compiled family (coq/Gen/MacroApiGen.v, read from harness/src/bin/macroapi.rs) ---------- *)
 
 (* every API of the family satisfies the name hypothesis *)
@@ -121,7 +130,7 @@ Qed.
 
 (* every method of the family satisfies the parameter-key hypothesis, except the labelled negative example *)
 Example C17_family_params_distinct :
-  forallb (fun a : japi => forallb (fun m => params_distinct (m_params m)) (a_methods a) && forallb (fun s => params_distinct (s_params s)) (a_subs a)) [api_Plain; api_Ns; api_Dot; api_Glue; api_Raw] = true /\
+  forallb (fun a : japi => forallb (fun m => params_distinct (m_params m)) (a_methods a) && forallb (fun s => params_distinct (s_params s)) (a_subs a)) [api_Plain; api_Ns; api_Dot; api_Glue; api_Raw; api_Spell] = true /\
   map (fun m : method jty => params_distinct (m_params m)) (a_methods api_Neg) = [false; true].
 Proof. vm_compute. split; reflexivity. Qed.
 
@@ -189,4 +198,36 @@ Example C17_witness_raw_identifiers :
   co_args (run_raw api_Raw b#"raw_mapRaw" (Some b#"{""rRef"":""q"",""r_type"":7}") (BReturn JNull) []) = Some [Some (JNum (NPos 7)); Some (JStr b#"q")] /\
   co_client (run_raw api_Raw b#"raw_mapRaw" (Some b#"{""type"":7,""ref"":""q""}") (BReturn JNull) []) = VErr (err_invalid_params (-32602)%Z) /\
   co_args (run_raw api_Raw b#"raw_mapRawOpt" (Some b#"{""r#move"":1}") (BReturn JNull) []) = Some [Some (JNum (NPos 1)); None].
+Proof. vm_compute. repeat split; reflexivity. Qed.
+
+(* every standard spelling of Option occurs in the family (trait Spell), each is decided optional, and a positional call with
+   such a tail omitted reaches the method / subscription with None -- also when only the first of several is given, when
+   nothing but the required head is given, and with no params at all when every parameter is optional *)
+Example C17_witness_option_spellings :
+  nth_error family_options 6 = Some
+    [ [([b#"u32"], false); ([b#"std"; b#"option"; b#"Option"], true)];
+      [([b#"u8"], false); ([b#"core"; b#"option"; b#"Option"], true)];
+      [([b#"String"], false); ([b#"core"; b#"option"; b#"Option"], true)];
+      [([b#"i16"], false); ([b#"option"; b#"Option"], true)];
+      [([b#"u32"], false); ([b#"Option"], true); ([b#"std"; b#"option"; b#"Option"], true); ([b#"core"; b#"option"; b#"Option"], true); ([b#"core"; b#"option"; b#"Option"], true)];
+      [([b#"core"; b#"option"; b#"Option"], true); ([b#"option"; b#"Option"], true); ([b#"Option"], true)];
+      [([b#"core"; b#"option"; b#"Option"], true); ([b#"u16"], false)];
+      [([b#"u32"], false); ([b#"core"; b#"option"; b#"Option"], true); ([b#"core"; b#"option"; b#"Option"], true); ([b#"std"; b#"option"; b#"Option"], true)];
+      [([b#"String"], false); ([b#"option"; b#"Option"], true); ([b#"core"; b#"option"; b#"Option"], true)];
+      [([b#"u32"], false); ([b#"core"; b#"option"; b#"Option"], true); ([b#"core"; b#"option"; b#"Option"], true)];
+      [([b#"u32"], false); ([b#"std"; b#"option"; b#"Option"], true)] ] /\
+  map is_std_option [[b#"Option"]; [b#"option"; b#"Option"]; [b#"std"; b#"option"; b#"Option"]; [b#"core"; b#"option"; b#"Option"]; [b#"settings"; b#"Option"]; [b#"Vec"]; []] =
+    [true; true; true; true; false; false; false] /\
+  co_args (run_raw api_Spell b#"sp_stdTail" (Some b#"[7]") (BReturn JNull) []) = Some [Some (JNum (NPos 7)); None] /\
+  co_args (run_raw api_Spell b#"sp_coreTail" (Some b#"[7]") (BReturn JNull) []) = Some [Some (JNum (NPos 7)); None] /\
+  co_args (run_raw api_Spell b#"sp_globalTail" (Some b#"[""s""]") (BReturn JNull) []) = Some [Some (JStr b#"s"); None] /\
+  co_args (run_raw api_Spell b#"sp_modTail" (Some b#"[-1]") (BReturn JNull) []) = Some [Some (JNum (NNeg 1)); None] /\
+  co_args (run_raw api_Spell b#"sp_coreTail" (Some b#"[7,null]") (BReturn JNull) []) = Some [Some (JNum (NPos 7)); None] /\
+  co_args (run_raw api_Spell b#"sp_coreTail" (Some b#"[7,""x""]") (BReturn JNull) []) = Some [Some (JNum (NPos 7)); Some (JStr b#"x")] /\
+  co_args (run_raw api_Spell b#"sp_mixTail" (Some b#"[1]") (BReturn JNull) []) = Some [Some (JNum (NPos 1)); None; None; None; None] /\
+  co_args (run_raw api_Spell b#"sp_mixTail" (Some b#"[1,2,null,""d""]") (BReturn JNull) []) = Some [Some (JNum (NPos 1)); Some (JNum (NPos 2)); None; Some (JStr b#"d"); None] /\
+  co_args (run_raw api_Spell b#"sp_allSpell" None (BReturn JNull) []) = Some [None; None; None] /\
+  co_args (run_raw api_Spell b#"spellAlias" (Some b#"[4]") (BReturn (JArr [])) b#"sp_unsubscribeSpell") = Some [Some (JNum (NPos 4)); None; None] /\
+  co_handler (run_raw api_Spell b#"sp_coreTail" (Some b#"[7]") (BReturn JNull) []) = Some (Registry.Bind 1 Registry.KAsync) /\
+  co_client (run_raw api_Spell b#"sp_coreMid" (Some b#"[""a""]") (BReturn JNull) []) = VErr (err_invalid_params (-32602)%Z).
 Proof. vm_compute. repeat split; reflexivity. Qed.
